@@ -120,8 +120,12 @@ def run_both(lines, tag="t", code=True, model=True):
                 model_res.update(fu.result())
         # code stalls: confirm alone with a longer deadline unless the model is slow there too
         byid = {l.split("\t", 1)[0]: l for l in lines}
+        confirmed = 0
         for cid, r in list(code_res.items()):
             if r.get("C") == "HANG":
+                if confirmed >= 3:
+                    continue          # three confirmed hangs are enough to report; do not wait for more
+                confirmed += 1
                 if model and model_res.get(cid, {}).get("C") == "SLOW":
                     code_res[cid] = {"C": "SLOW"}
                     continue
